@@ -1,4 +1,4 @@
-import Sourmash.Lemmas.GatherStats
+import Sourmash.Lemmas.GatherRefine
 /-! Property C08 — gather returns the greedy minimum set cover with consistent statistics.
 Property theorems only; helper lemmas live in `Sourmash/Lemmas/Gather*.lean`.
 
@@ -373,5 +373,89 @@ theorem fuel_irrelevant (c : Cfg) (k : Nat) : run c (fuel c + k) (init c) = trac
     have h : (init c).counter.length ≤ fuel c + k := by
       simp only [init, fuel]; omega
     exact run_fuel (fuel c + k) h
+
+/-! ## The counter-based loop computes the specification's greedy cover -/
+
+/-- T-greedy + T-threshold + T-unique in one statement: the sequence of (dataset, overlap, intersection)
+    that `gather` reports is the one the naive greedy set cover of `Spec/Gather.lean` reports — which
+    recomputes every overlap from scratch each round, takes the unreported dataset of largest overlap
+    (lowest id on ties), stops below the threshold and after a match exactly at it
+    (query sizes below `usize::MAX`) -/
+theorem gather_is_greedy_cover {c : Cfg} (hc : Sketches c) (hq : c.orig.length < 2 ^ 64 - 1) :
+    (gather c).map rowKey
+      = (GatherSpec.cover c.dsets c.threshold (c.orig.map (·.1))).map matchKey := by
+  have hlen := prepareCounter_length c.dsets (c.orig.map (·.1))
+  by_cases ht : c.threshold < 2 ^ 64 - 1
+  · have := run_refines hc.wf (fuel c) c.dsets.length (inv_init hc.wf) (by simp only [init]; omega)
+      (by simp only [init, fuel]; omega) (by simp only [init]; omega)
+    simp only [gather, trace, List.map_map, Function.comp_def]
+    rw [this]
+    rfl
+  · have hstep : step c (init c) = none := by
+      unfold step
+      have : ¬ ((init c).matchSize > c.threshold ∧ (init c).counter ≠ []) := by
+        simp only [init]; omega
+      simp [this]
+    have hg : gather c = [] := by simp [gather, trace, fuel, run, hstep]
+    rw [hg]
+    simp only [List.map_nil, GatherSpec.cover]
+    cases hn : c.dsets.length with
+    | zero => rfl
+    | succ n =>
+      unfold GatherSpec.greedy
+      rcases best_spec c.dsets (c.orig.map (·.1)) [] with ⟨hb, _⟩ | ⟨x, hb, hx⟩
+      · rw [hb]; rfl
+      · rw [hb]
+        have hle : x.2 ≤ c.orig.length := by
+          rw [hx.2.2.1]
+          have h1 := isectL_length_comm (dsOf_nodup hc.wf x.1) hc.wf.q
+          have h2 : (isectL (keys c.orig) (dsOf c.dsets x.1)).length ≤ (keys c.orig).length :=
+            List.length_filter_le _ _
+          have h3 : (keys c.orig).length = c.orig.length := by simp [keys]
+          show (isectL (dsOf c.dsets x.1) (keys c.orig)).length ≤ _
+          omega
+        have : x.2 < c.threshold ∨ x.2 = 0 := by omega
+        simp [this]
+
+example : Sketches exCfg ∧ exCfg.orig.length < 2 ^ 64 - 1 ∧
+    (GatherSpec.cover exCfg.dsets exCfg.threshold (exCfg.orig.map (·.1))).map matchKey
+      = [(0, 3, [1, 2, 3]), (1, 2, [4, 5])] := ⟨exCfg_sketches, by decide, by decide⟩
+
+/-- T-stats in one statement: rank, `unique_intersect_bp`, `remaining_bp` and `f_unique_to_query` of the
+    reported rows are the specification's statistics of the greedy cover (`GatherSpec.stats`: ranks from
+    0, `scaled·|isect|`, `scaled·(|Q| − Σ_{i ≤ k}|isect_i|)`, `|isect| / |Q|`); for queries with
+    abundances so are `n_unique_weighted_found = Σ_{h ∈ isect} abund_Q(h)`, its running sum
+    `sum_weighted_found`, `total_weighted_hashes = Σ abund_Q` and `f_unique_weighted` -/
+theorem stats_are_spec {c : Cfg} (hc : Sketches c) (hq : c.orig.length < 2 ^ 64 - 1) :
+    (gather c).map rowUnweighted
+      = (GatherSpec.stats c.scaled c.orig
+          (GatherSpec.cover c.dsets c.threshold (c.orig.map (·.1)))).map statUnweighted ∧
+    (c.track = true →
+      (gather c).map rowWeighted
+        = (GatherSpec.stats c.scaled c.orig
+            (GatherSpec.cover c.dsets c.threshold (c.orig.map (·.1)))).map statWeighted) := by
+  have hcover : GatherSpec.cover c.dsets c.threshold (c.orig.map (·.1)) = (gather c).map toMatch := by
+    have h := gather_is_greedy_cover hc hq
+    have h2 : (gather c).map rowKey = ((gather c).map toMatch).map matchKey := by
+      rw [List.map_map]; rfl
+    rw [h2] at h
+    exact ((List.map_inj_right matchKey_injective).mp h).symm
+  rw [hcover]
+  have hg : (gather c).map toMatch = (run c (fuel c) (init c)).map (fun p => toMatch p.2) := by
+    simp [gather, trace, List.map_map, Function.comp_def]
+  constructor
+  · have := run_stats_unweighted hc.wf (fuel c) (inv_init hc.wf) 0 0 (by simp [init])
+    rw [hg, GatherSpec.stats]
+    simp only [gather, trace, List.map_map, Function.comp_def]
+    exact this
+  · intro htr
+    have := run_stats_weighted hc.wf htr (fuel c) (inv_init hc.wf) 0 0
+    rw [hg, GatherSpec.stats]
+    simp only [gather, trace, List.map_map, Function.comp_def]
+    exact this
+
+example : (GatherSpec.stats exCfg.scaled exCfg.orig
+    (GatherSpec.cover exCfg.dsets exCfg.threshold (exCfg.orig.map (·.1)))).map statWeighted
+      = [(9, 9, 15, (9, 15)), (3, 12, 15, (3, 15))] := by decide
 
 end Sourmash.C08
